@@ -291,6 +291,7 @@ func verifC03_deflate() {
 	second := vBytes("second", 2)
 	takeover := (client && (mode == 1 || mode == 3)) || (!client && (mode == 1 || mode == 4))
 	negProbe := false
+	var third []byte
 	switch k := vChoose("secondKind", 3); {
 	case k == 1:
 		frames = append(frames, vDataFrames(vStored(second, []int{2}, false), nil, 1, true, client)...)
@@ -305,13 +306,20 @@ func verifC03_deflate() {
 		frames = append(frames, vDataFrames(vBackrefProbe, nil, 1, true, client)...)
 		negProbe = true
 		vReach("C03.deflate.backref-without-takeover")
+	case k == 0 && takeover && n >= 1 && vChoose("third", 2) == 1:
+		// an UNCOMPRESSED message between two compressed ones is no part of the compression history: a third message
+		// that refers back at distance 1 still finds the last byte of the first
+		frames = append(frames, vDataFrames(second, nil, 1, false, client)...)
+		frames = append(frames, vDataFrames(vBackrefProbe, nil, 2, true, client)...)
+		third = []byte{data[n-1], data[n-1], data[n-1]}
+		vReach("C03.deflate.backref-across-an-uncompressed-message")
 	default:
 		frames = append(frames, vDataFrames(second, nil, 1, false, client)...)
 	}
 	t := vNewTransport(vEncodeFrames(frames))
 	t.step = vChoose("step", 2)
 	c := vNewConn(t, client, vCopts(mode), 64, 256)
-	g := vReadLoop(c, 1+vChoose("buf", 2)*5, 3)
+	g := vReadLoop(c, 1+vChoose("buf", 2)*5, 4)
 	vReach("C03.deflate.read")
 	if client {
 		vClassify("role", "client")
@@ -331,7 +339,13 @@ func verifC03_deflate() {
 		vClassify("shape", "sync-flush")
 	}
 	ok := len(g.msgs) == 2
-	if negProbe {
+	if third != nil {
+		ok = len(g.msgs) == 3
+		if ok {
+			ok = vAnd(vAnd(g.types[0] == MessageBinary, vEqBytes(g.msgs[0], data)), vAnd(g.types[1] == MessageText, vEqBytes(g.msgs[1], second)))
+			ok = vAnd(ok, vAnd(g.types[2] == MessageBinary, vEqBytes(g.msgs[2], third)))
+		}
+	} else if negProbe {
 		// the probe message itself must be what fails: it starts (its header is fine) and cannot be decoded
 		ok = len(g.msgs) == 1 && !g.atReader
 		if ok {
